@@ -56,7 +56,9 @@ def main():
         cmd = [sys.executable, "-m", "vlib.worker", pid, tier, str(seed), str(i)]
         cmd += [str(nshards), str(per[i]), out]
         log = open(os.path.join(tmp, f"shard{i}.log"), "w")
-        procs.append((subprocess.Popen(cmd, stdout=log, stderr=log, cwd=VERIF), out, log))
+        env = dict(os.environ)
+        env.update(getattr(prop, "shard_env", lambda i, n: {})(i, nshards))
+        procs.append((subprocess.Popen(cmd, stdout=log, stderr=log, cwd=VERIF, env=env), out, log))
 
     merged = {
         "evaluations": 0,
@@ -68,7 +70,7 @@ def main():
         "metrics": {},
     }
     harness_errors = []
-    deadline = t0 + float(os.environ.get("VERIF_SHARD_TIMEOUT", 1500 if tier == "quick" else 6 * 3600))
+    deadline = t0 + float(os.environ.get("VERIF_SHARD_TIMEOUT", 900 if tier == "quick" else 6 * 3600))
     for i, (p, out, log) in enumerate(procs):
         try:
             rc = p.wait(timeout=max(1.0, deadline - time.time()))
